@@ -23,7 +23,8 @@
 (***************************************************************************)
 EXTENDS WebChars
 
-CONSTANTS RootP,      \* names (char sequences) of the directory containing the root (cfg: RootP <- DefaultRootP)
+CONSTANTS RootName,   \* name of the scratch directory /tmp/<name> containing the root, as the set {1000 * i + c_i}
+                      \* (cfg files cannot hold sequences); {1080} is the placeholder name "P" of generated paths
           GenToks,    \* token names the generator builds paths from
           PathLen,    \* max tokens per generated path
           MaxReq,     \* requests per behaviour
@@ -31,13 +32,16 @@ CONSTANTS RootP,      \* names (char sequences) of the directory containing the 
 
 VARIABLES cfg,   \* [dflt, outside]
           n,     \* requests made
+          lead,  \* generator only: first token of the paths explored from this initial state
+                 \* ("none": no restriction / the empty path); it only spreads TLC's work over workers
           step
 
-vars == <<cfg, n>>
+vars == <<cfg, n, lead>>
 
 (* the directory containing the root: /tmp/P, where the harness substitutes the name of its
    scratch directory for the placeholder name P in generated paths; recorded traces carry the real names *)
-DefaultRootP == <<<<116, 109, 112>>, <<80>>>>
+NameOf(S) == [i \in 1..Cardinality(S) |-> (CHOOSE x \in S : x \div 1000 = i) % 1000]
+RootP == <<<<116, 109, 112>>, NameOf(RootName)>>
 
 N_r == <<114>>
 N_r2 == <<114, 50>>
@@ -137,6 +141,7 @@ Obs(a, args, c) == [act |-> a, args |-> args, exp |-> Respond(c, args[2])]
 InitWith(c) ==
     /\ cfg = c
     /\ n = 0
+    /\ lead \in GenToks \cup {"none"}
     /\ step = [act |-> "init", args |-> <<>>, exp |-> Deny]
 
 InitState == \E d \in BOOLEAN, o \in BOOLEAN : InitWith([dflt |-> d, outside |-> o])
@@ -145,10 +150,13 @@ InitState == \E d \in BOOLEAN, o \in BOOLEAN : InitWith([dflt |-> d, outside |->
 Request(m, raw) ==
     /\ n < MaxReq
     /\ n' = n + 1
-    /\ UNCHANGED cfg
+    /\ UNCHANGED <<cfg, lead>>
     /\ step' = Obs("request", <<m, raw>>, cfg)
 
-Next == n < MaxReq /\ \E m \in {"GET", "HEAD"}, toks \in BoundedSeq(GenToks, PathLen) : Request(m, RawOf(toks))
+Next == /\ n < MaxReq
+        /\ \E m \in {"GET", "HEAD"} :
+             IF lead = "none" THEN Request(m, <<>>)
+             ELSE \E rest \in BoundedSeq(GenToks, PathLen - 1) : Request(m, RawOf(<<lead>> \o rest))
 
 Spec == InitState /\ [][Next]_<<vars, step>>
 
